@@ -70,6 +70,26 @@ CLAIMED = {
   text="Decides for all change sets: outside a closed table of functions no code reachable from PlanChanges reads a schema's name; in the qualifier-aware sinks the requested qualifier is tested before the schema's own name; mysql/postgres never write table/view/schema names through the raw identifier writer; scratch planner states inherit the plan options (so reverse statements honour the qualifier too); plan() runs the scope check first whenever a qualifier is set; the CLI asks for the empty qualifier exactly for schema-bound URLs. One genuine defect in the scope check (D5) is a known finding.",
   note="Not decided: token-level absence of the name in every statement (needs running the planners); whether RefTable's cross-schema reference under the empty qualifier is acceptable for multi-tenant use. ",
   ref="DESIGN.md §3 C16"),
+ "C01": dict(
+  technique="static analysis: per-dialect SSA change-kind flow analysis (what the differ may emit) vs. table extraction of planner switch cases (what is handled) + go/cfg order and all-paths rules on the SQLite rebuild, index-part writers and Normalize",
+  text="Decides for every schema pair: every change kind a dialect's differ can emit (top level / nested in ModifyTable, guarded kinds removed per SupportChange) has a handler case in that dialect's planner, so no difference can be silently ignored by a planner switch; SQLite's in-place set is a subset of what alterTable handles; the rebuild procedure keeps its order; key-part writers consult Desc on every path; the differ normalises generated index names before every successful return; schema apply applies exactly the computed changes. Necessary conditions of convergence only.",
+  note="Not decided: that the SQL printed for a handled kind, executed by an engine, produces the desired object; attribute-level completeness of handlers; name normalisation values. Kinds outside the OSS feature set (views, functions, procedures, triggers) are reported in the evidence, not checked. ",
+  ref="DESIGN.md §3 C01"),
+ "C02": dict(
+  technique="static analysis: reportable-kind sets through callees, bit/guard association and duplicate-guard lint, from/to selector symmetry lint, go/cfg conditionality of change constructions, SSA skip-filter flow analysis",
+  text="Decides for every schema pair and dialect: each comparison function can still report every change kind confirmed on the reference tree; each kind bit is set under a comparison of the attribute it names and no two bits share a guard; comparisons between the two compared objects select the same attribute on both sides; every change constructed in a comparison function is control-dependent on a comparison (self-diff can only be non-empty through an asymmetric comparison); no skippable kind escapes the filter; SQLite never pairs foreign keys by generated numeric symbols.",
+  note="Not decided: candidate matching (which object of the other side is compared), exactly-once counting for sets of edits, value-level normalisation. ",
+  ref="DESIGN.md §3 C02"),
+ "C04": dict(
+  technique="static analysis: go/cfg must-precede rules on the planners' detach/sort pipeline, orientation table for dependsOn, partition rules for detachReferences, guard/edge consistency in dependencies(), pointer-identity rule",
+  text="Decides for every foreign-key graph: both planners detach cycles then sort, on the list they iterate; every reference test in dependsOn has the orientation the property states (create before referenced, drop after references); detachReferences sends foreign-key creations after all table creations and foreign-key drops before all table drops, strips detached keys from the planned copy and returns early-then-late; each dependency edge is guarded by a test on the same foreign-key end; created/dropped tables are never identified by pointer after they may have been copied; the cycle detector's marking discipline is kept.",
+  note="Not decided: correctness of the DFS/topological order for every graph, termination, completeness of the edge kinds collected. ",
+  ref="DESIGN.md §3 C04"),
+ "C05": dict(
+  technique="static analysis: CFG path enumeration of paired appends in copyRows, argument-order agreement of the INSERT … SELECT, guard rules for value rewriting and column skipping, go/cfg order rules of the rebuild",
+  text="Decides for every change set: destination and source column lists stay index-aligned on every path through the column loop and are printed in the matching positions of INSERT INTO new (…) SELECT … FROM old; a copied value is rewritten only for NOT NULL target columns; a column is left out of the copy only if generated or newly added; rows are copied before the old table is dropped, drop precedes rename precedes index creation; the ALTER path is taken only for kinds alterTable handles; dropping a surviving column is refused.",
+  note="Not decided: value equality on a real engine (affinity conversions, IFNULL semantics), that unrelated tables are untouched by the engine. ",
+  ref="DESIGN.md §3 C05"),
 }
 
 NA = {}
